@@ -4,13 +4,17 @@ package main
 // call builtins and extensions.
 
 import (
+	"context"
 	"fmt"
+	"io"
 	"os"
 	"sort"
 	"strings"
 	"time"
 
+	"grol.io/grol/eval"
 	"grol.io/grol/object"
+	"grol.io/grol/repl"
 	. "verifharness/common"
 )
 
@@ -208,4 +212,113 @@ func nilChildShapes(c *Ctx) {
 			check(c, "nil-child", src, o)
 		}
 	}
+}
+
+// ---------------------------------------------------------------- unquote of COMPUTED values in every inspected position
+// quote(... unquote(e) ...) converts the VALUE of e back into syntax.  The node it produces is then looked at by the
+// evaluator and the printers wherever they inspect a child's token (for-range operand, lambda body, else branch, dot /
+// index / call / pipe / assignment / del operand ...).  Every value kind x every such position, from a macro body and
+// from a run-time quote; the result is evaluated AND printed (Inspect of the quote, cache key of a function that contains
+// the expansion, format(), save()).
+func unquoteComputed(c *Ctx) {
+	o := evalOpts{maxDepth: 200, dur: 500 * time.Millisecond}
+	values := []string{"1+2", "0-3", "1.5*2", `"a"+"b"`, "nil", "1<2", "[1,2,3]", "[]", "0:12", `[1,"a",[2]]`, "{1:2}", "{}", "func(x){x}", "(x=>x)", "quote(y+1)",
+		"quote([1,2])", "1/0", "sin", "first([])", `"x"*3`, "-0.0", "9223372036854775807+1", `{"k":[1]}`}
+	positions := []string{
+		"for x = U {println(x)}", "for U {break}", "for i = U:3 {i}", "for i = 0:U {i}", "()=>U", "(a)=>{U}", "func(){U}", "func f2(){U}; f2()",
+		"if true {1} else {U}", "if false {1} else {U}", "if U {1}", "if true {U}", "if false {1} else if U {2}",
+		"U.k", "U[0]", "U[0:1]", "U[1:]", "w[U]", "w[U:]", "U(1)", "U()", `"s" | U`, "U | len(1)", "U = 1", "U := 1", "w[0] = U", "U[0] = 1", "U.k = 1", "del(U)", "del(U[0])", "del(w[U])",
+		"U + 1", "1 + U", "-U", "!U", "U++", "++U", "[U]", "[U, U]", "{U: 1}", "{1: U}", "len(U)", "first(U)", "print(U)", "return U", "U", "U; U", "catch(U)", "quote(U)",
+		"U == U", "U : U", "U && true", "idf(U)", "idf(U)(1)", "m2(U)",
+	}
+	for _, v := range values {
+		for pi, p := range positions {
+			body := strings.ReplaceAll(p, "U", "unquote(l)")
+			pre := "w = [5,6,7]; idf = x => x; m2 = macro(z){ quote(unquote(z)) }; "
+			progs := []string{
+				pre + "m = macro(){ l = " + v + "; quote(" + body + ") }; m()",
+				pre + "l = " + v + "; q = quote(" + body + "); q",
+			}
+			if pi%2 == 0 || c.Thorough() {
+				progs = append(progs,
+					pre+"m = macro(a){ l = "+v+"; quote("+body+") }; func tf(){ m(1) }; tf(); tf(); format(tf)",
+					pre+"l = "+v+"; func mk(){ quote("+body+") }; r = mk(); r; save(\"uq\")",
+					pre+"m = macro(a){ quote("+strings.ReplaceAll(p, "U", "unquote(a)")+") }; m("+v+")")
+			}
+			for _, src := range progs {
+				check(c, "unquote-computed", src, o)
+			}
+		}
+	}
+}
+
+// ---------------------------------------------------------------- saving globals of every kind under every length limit
+// save() and the auto-save of the REPL / of EvalStringWithOption (which runs OUTSIDE EvalOne's recover: a panic there
+// kills the process) write every global, skipping values longer than MaxValueLen.  Globals of every kind, short and long,
+// incl. brace-less lambdas and named functions, under limits 0 (unlimited), 1, 13, 14, 100 and the default 4000.
+func guardedCall(c *Ctx, stage, cs string, f func()) {
+	defer func() {
+		if r := recover(); r != nil {
+			cl, pc := classifyPanic(r)
+			if cl == "P" {
+				c.Fail("go-panic:"+pc+":"+panicOrigin(), cs, stage+": "+fmt.Sprint(r))
+			}
+		}
+	}()
+	evalCount++
+	f()
+}
+
+func saveLimits(c *Ctx) {
+	long := strings.Repeat("+1", 60)
+	defs := []string{
+		"i = 42", "fl = 1.5", "st = \"" + strings.Repeat("ab", 40) + "\"", "b = true", "nn = nil", "ar = 0:40", "sa = [1,2]", "mp = {1:2}", "bm = {1:1,2:2,3:3,4:4,5:5,6:6}",
+		"ll = x => x" + long, "l2 = (a,b) => a+b" + long, "lb = x => { x" + long + " }", "l0 = () => 1", "sl = x=>x",
+		"func named(a){ a" + long + " }", "func nn2(){}", "af = func(a){ a" + long + " }", "h = named", "qq = quote(x" + long + ")", "ex = sin",
+		"func outer(){ x => x" + long + " }; cl = outer()", "nested = [x => x" + long + ", {1: y => y}]", "vr = func(a,..){ .. }",
+		"m = macro(a){ quote(unquote(a)) }", "A_CONST = x => x" + long, "e = catch(1/0)",
+	}
+	all := strings.Join(defs, "\n")
+	progs := append([]string{all, "1"}, defs...)
+	for _, lim := range []int{0, 1, 13, 14, 100, 4000} {
+		for pi, prog := range progs {
+			if !c.Thorough() && pi > 1 && lim != 13 && lim != 100 && c.R.Pct(60) {
+				continue
+			}
+			cs := fmt.Sprintf("max-save-len=%d ;; %s", lim, prog)
+			// (a) the save() extension
+			check(c, "save-limit", prog+"\nsave(\"sv\")", evalOpts{maxDepth: 200, dur: time.Second, pre: func(s *eval.State) { s.MaxValueLen = lim }})
+			// (b) SaveGlobals and repl.AutoSave on a state that evaluated the program
+			guardedCall(c, "autosave", cs, func() {
+				s := eval.NewState()
+				s.MaxValueLen = lim
+				var sb strings.Builder
+				s.Out, s.LogOut, s.NoLog = &sb, &sb, true
+				ro := repl.EvalStringOptions()
+				ro.MaxDuration = time.Second
+				ro.AutoSave, ro.MaxValueLen = true, lim
+				_, _, _, _ = repl.EvalOne(context.Background(), s, prog, &sb, ro)
+				_, _ = s.SaveGlobals(io.Discard)
+				_ = repl.AutoSave(s, ro)
+			})
+			// (c) the whole entry point with AutoSave (and AutoLoad of what (b) wrote)
+			guardedCall(c, "eval-string-with-autosave", cs, func() {
+				ro := repl.EvalStringOptions()
+				ro.MaxDuration = time.Second
+				ro.AutoSave, ro.AutoLoad, ro.MaxValueLen = true, true, lim
+				_, _, _ = repl.EvalStringWithOption(context.Background(), ro, prog)
+			})
+			// (d) EvalAll (file / stdin mode)
+			guardedCall(c, "eval-all", cs, func() {
+				s := eval.NewState()
+				s.MaxValueLen = lim
+				ro := repl.EvalStringOptions()
+				ro.MaxDuration = time.Second
+				ro.AutoSave, ro.MaxValueLen = true, lim
+				_ = repl.EvalAll(s, strings.NewReader(prog), io.Discard, ro)
+				_ = repl.AutoSave(s, ro)
+			})
+		}
+	}
+	_ = os.Remove(repl.AutoSaveFile)
 }
